@@ -118,7 +118,7 @@ func (g *G) value(k Kind, role, def string) string {
 
 // ---- value alphabets (choice 0 is the role's own default) ------------------------------------------
 
-var hardIdents = []string{"b", "_x1", "my db", `sel"ect`, "select", "1h", "a.b", "é👍", "new\nline", "Time", `back\slash`, "true", "OR"}
+var hardIdents = []string{"b", "_x1", "my db", `sel"ect`, "select", "1h", "a.b", "é👍", "new\nline", "Time", `back\slash`, "true", "OR", "time"}
 var hardStrings = []string{"", "it's", `a\b`, "x\ny", "é", "; DROP DATABASE d --", `"`, "/* c */"}
 
 func (g *G) ident(role, def string) string {
@@ -165,7 +165,7 @@ type durAlt struct {
 }
 
 var durAlts = []durAlt{{"1h", time.Hour}, {"0s", 0}, {"90m", 90 * time.Minute}, {"1h30m", 90 * time.Minute}, {"1500ms", 1500 * time.Millisecond},
-	{"1ns", 1}, {"1u", time.Microsecond}, {"1µ", time.Microsecond}, {"2w", 14 * 24 * time.Hour}, {"106751d", 106751 * 24 * time.Hour}, {"10m", 10 * time.Minute}}
+	{"1ns", 1}, {"1u", time.Microsecond}, {"1µ", time.Microsecond}, {"2w", 14 * 24 * time.Hour}, {"106751d", 106751 * 24 * time.Hour}, {"10m", 10 * time.Minute}, {"2562024h", 106751 * 24 * time.Hour}, {"9223372036s", 9223372036 * time.Second}}
 
 func durByText(t string) time.Duration {
 	for _, d := range durAlts {
